@@ -29,7 +29,9 @@ func (b Enforce) Apply(opt *Option, profile string) (string, error) {
 	// Edit each block header on its own, from its own flags
 	if regBlockHeader.FindString(profile) != profile {
 		return regBlockHeader.ReplaceAllStringFunc(profile, func(header string) string {
-			header, _ = b.Apply(opt, header)
+			if !regRuleBlock.MatchString(header) {
+				header, _ = b.Apply(opt, header)
+			}
 			return header
 		}), nil
 	}
